@@ -1,0 +1,100 @@
+//! Verification entry points. Only compiled with `--cfg iroh_verif`; never part of a shipped build.
+//!
+//! An in-process server: the real `ZoneStore` (store actor, evict task, zone cache), the real
+//! pkarr HTTP handlers and the real DNS request handler, without sockets.
+
+use std::{net::SocketAddr, sync::Arc, time::Duration};
+
+use bytes::Bytes;
+use hickory_server::{net::xfer::Protocol, server::Request};
+use n0_error::{Result, StdResultExt};
+
+use crate::{
+    dns::{DnsConfig, DnsHandler},
+    metrics::Metrics,
+    state::AppState,
+    store::{Options, ZoneStore},
+};
+
+/// Store options (mirrors the crate-private `store::Options`).
+#[derive(Debug, Clone, Copy)]
+pub struct StoreOptions {
+    /// Maximum number of messages handled in one write transaction.
+    pub max_batch_size: usize,
+    /// Maximum time a write transaction is kept open.
+    pub max_batch_time: Duration,
+    /// Retention period.
+    pub eviction: Duration,
+    /// Pause between eviction scans.
+    pub eviction_interval: Duration,
+    /// Capacity of the in-memory zone cache.
+    pub cache_capacity: usize,
+}
+
+/// The in-process server.
+#[derive(Clone)]
+pub struct VerifServer {
+    state: AppState,
+}
+
+impl std::fmt::Debug for VerifServer {
+    fn fmt(&self, f: &mut std::fmt::Formatter<'_>) -> std::fmt::Result {
+        f.write_str("VerifServer")
+    }
+}
+
+impl VerifServer {
+    /// Opens the store over `backend`. Must be called inside a `LocalSet` of a tokio runtime.
+    pub fn open(
+        backend: impl redb::StorageBackend,
+        opts: StoreOptions,
+        origins: Vec<String>,
+    ) -> Result<Self> {
+        let options = Options {
+            max_batch_size: opts.max_batch_size,
+            max_batch_time: opts.max_batch_time,
+            eviction: opts.eviction,
+            eviction_interval: opts.eviction_interval,
+        };
+        let store = ZoneStore::verif_new(backend, options, opts.cache_capacity)?;
+        let metrics: Arc<Metrics> = Default::default();
+        let dns_config = DnsConfig::new(0, "dns1.irohdns.example hostmaster.irohdns.example 0 10800 3600 604800 3600".to_string(), 30, origins);
+        let dns_handler = DnsHandler::new(store.clone(), &dns_config, metrics.clone())?;
+        Ok(Self {
+            state: AppState {
+                store,
+                dns_handler,
+                metrics,
+            },
+        })
+    }
+
+    /// The `PUT /pkarr/:key` handler; returns the HTTP status.
+    pub async fn pkarr_put(&self, key_z32: &str, body: Bytes) -> u16 {
+        crate::http::verif::pkarr_put(self.state.clone(), key_z32.to_string(), body).await
+    }
+
+    /// The `GET /pkarr/:key` handler; returns status and body (the relay payload).
+    pub async fn pkarr_get(&self, key_z32: &str) -> (u16, Bytes) {
+        crate::http::verif::pkarr_get(self.state.clone(), key_z32.to_string()).await
+    }
+
+    /// Answers a wire-format DNS query through the real request handler.
+    pub async fn dns_query(&self, wire: &[u8]) -> Result<Bytes> {
+        let src: SocketAddr = "127.0.0.1:5353".parse().expect("valid");
+        let request = Request::from_bytes(wire.to_vec(), src, Protocol::Udp).anyerr()?;
+        self.state.dns_handler.answer_request(request).await
+    }
+}
+
+/// Opens a database over `backend` (running redb's recovery if needed) and dumps both tables:
+/// `(key, stored value)` rows and `(timestamp micros, key)` index rows.
+#[allow(clippy::type_complexity)]
+pub fn dump_tables(
+    backend: impl redb::StorageBackend,
+) -> Result<(Vec<([u8; 32], Vec<u8>)>, Vec<(u64, [u8; 32])>)> {
+    let db = redb::Database::builder()
+        .create_with_backend(backend)
+        .anyerr()?;
+    crate::store::verif_dump(&db)
+}
